@@ -41,4 +41,4 @@ def run(ck):
 
 
 def replay(ck, path):
-    run(ck)
+    engine.replay(ck, 'C17', path, run)
